@@ -94,3 +94,16 @@ func JitterStats() (p50, p99, max time.Duration, n int) {
 	sort.Slice(g, func(i, j int) bool { return g[i] < g[j] })
 	return g[len(g)/2], g[len(g)*99/100], g[len(g)-1], len(g)
 }
+
+// Kept returns how much time the reference goroutine has witnessed since a: the number of its wake-ups after a times
+// its period. While the whole process is not running (a stalled VM, a starved container) the wall clock advances and
+// Kept does not - a wait that must give OTHER goroutines of this process a fair chance is bounded in kept time, so
+// that it cannot end because of a stall that hit those goroutines as well.
+func Kept(a time.Time) time.Duration {
+	startJitter()
+	jit.mu.Lock()
+	defer jit.mu.Unlock()
+	tk := jit.ticks
+	i := sort.Search(len(tk), func(i int) bool { return tk[i].After(a) })
+	return time.Duration(len(tk)-i) * jitterPeriod
+}
